@@ -113,6 +113,13 @@ def contract_holds(facts, matcher, rule):
             return x
         closed = [closure_lits({rn(l) for l in fs}) for fs in closed]
     missing = [name for name, pred in contract if not all(pred(fs) for fs in closed)]
+    if missing:
+        # refuted only where the engine understood the accepting paths on which a conjunct is missing
+        for name, pred in contract:
+            if name in missing:
+                for i, fs in enumerate(closed):
+                    if not pred(fs) and rmatch.foreign_atoms(ds[i]):
+                        return None, missing
     return not missing, missing
 
 
@@ -327,7 +334,7 @@ def _d1(ck, facts):
         if key in R.WRAPPERS and R.WRAPPERS[key][1] == rule:
             matcher = R.WRAPPERS[key][0]
             ok, missing = contract_holds(facts, matcher, rule)
-            ck.ob('R-GUARD', sid, bool(ok), ck.site(key, call), 'checked wrapper guards %s with %s, which does not establish: %s' % (rule, matcher, missing), sample={'kind': 'wrapper', 'guard': matcher})
+            ck.ob3('R-GUARD', sid, ok, ck.site(key, call), ('checked wrapper guards %s with %s, which does not establish: %s' % (rule, matcher, missing)) if ok is False else 'the matcher %s contains conditions the engine cannot interpret; whether it establishes %s is not decided' % (matcher, missing), sample={'kind': 'wrapper', 'guard': matcher})
             continue
         if (key, rule) in INNER_CALLS:
             ck.exception(sid, INNER_CALLS[(key, rule)])
@@ -344,6 +351,9 @@ def _d1(ck, facts):
         ok, missing = contract_holds(facts, matcher, rule)
         mut = mutated_between(f, gnode, call, pm)
         n_guarded += 1
+        if ok is None and not mut:
+            ck.ob3('R-GUARD', sid, None, ck.site(key, call), 'the matcher %s contains conditions the engine cannot interpret; whether it establishes %s is not decided' % (matcher, missing))
+            continue
         ck.ob('R-GUARD', sid, bool(ok) and not mut, ck.site(key, call),
               ('the graph is mutated between %s and %s' % (matcher, rule)) if mut else ('%s is applied under %s, which does not establish the rule\'s precondition: missing %s' % (rule, matcher, missing)),
               sample={'kind': 'guarded', 'guard': matcher, 'rule': rule})
